@@ -63,7 +63,7 @@ PROPS = {
                "Zap.Props.C04Loaders.loaders_agree", "Zap.Props.C04Loaders.loaders_contain_id"],
               CODEC_FILES + ["ZapProofs/Props/C04.lean", "ZapModel/Loaders.lean", "ZapProofs/WriterLemmasLoaders.lean",
                              "ZapProofs/Props/C04Loaders.lean"]),
-    "C05": _p([{"regress": "d3_zero_survivors.script"}, {"gen": "C05"}], ["ZapProofs.Props.C05", "ZapProofs.Props.DocNumWidth"],
+    "C05": _p([{"regress": "d15_zero_survivor_maps.script"}, {"regress": "d3_zero_survivors.script"}, {"gen": "C05"}], ["ZapProofs.Props.C05", "ZapProofs.Props.DocNumWidth"],
               ["Zap.DocNumWidth.no_narrow_docnum", "Zap.remapSeg_spec", "Zap.remapAll_spec", "Zap.newDocCount_eq", "Zap.C05_consecutive", "Zap.C05_bijection",
                "Zap.C05_count", "Zap.C05_maps", "Zap.C05_zero", "Zap.C05_stored", "Zap.mergedFieldNames_spec",
                "Zap.fieldsSame_sound"], MERGE_FILES),
